@@ -231,7 +231,7 @@ func inter(a []int, up map[int]bool) []int {
 // ---- (1) peers-table histories, merges driven by control-connection reconnects ----
 func c16Tables(ctx *Ctx) {
 	r := ctx.Rng
-	for round := 0; round < ctx.Scale(3, 40); round++ {
+	for round := 0; round < ctx.Scale(3, 120); round++ {
 		n := 3 + r.Intn(2)
 		var all []int
 		for h := 1; h <= n; h++ {
@@ -367,7 +367,7 @@ func c16EventDriven(ctx *Ctx, variant int) {
 // ---- (1c) a session that is being created while a host leaves; the host comes back later.  Every session keeps its
 // own table of pools, filled by a goroutine per host when the session is born and by add/remove events afterwards. ----
 func c16SessionBornDuringRemoval(ctx *Ctx) {
-	for round := 0; round < ctx.Scale(1, 6); round++ {
+	for round := 0; round < ctx.Scale(1, 16); round++ {
 		all := []int{1, 2, 3}
 		e := newC16Env(fmt.Sprintf("b%dr%d", ctx.Seed%1000, round), all, all, nil)
 		if !e.waitControl(5 * time.Second) {
@@ -451,7 +451,7 @@ func c16SessionBornDuringRemoval(ctx *Ctx) {
 func c16PoolTable(ctx *Ctx) {
 	r := ctx.Rng
 	all := []int{1, 2, 3, 4}
-	for round := 0; round < ctx.Scale(2, 14); round++ {
+	for round := 0; round < ctx.Scale(2, 40); round++ {
 		t0 := []int{1}
 		for h := 2; h <= 4; h++ {
 			if r.Intn(3) != 0 {
@@ -613,7 +613,7 @@ func c16HeartbeatSchedule(ctx *Ctx) {
 	var wg sync.WaitGroup
 	var mu sync.Mutex
 	r := ctx.Rng
-	for cs := 0; cs < ctx.Scale(10, 120); cs++ {
+	for cs := 0; cs < ctx.Scale(10, 240); cs++ {
 		healthy := cs%5 == 4
 		var script []beat
 		for i := 0; i < 3+r.Intn(6); i++ {
@@ -742,7 +742,7 @@ func c16HeartbeatSchedule(ctx *Ctx) {
 // ---- (2) failover with several hosts down at once, (3) outage samples ----
 func c16Failover(ctx *Ctx) {
 	r := ctx.Rng
-	for round := 0; round < ctx.Scale(4, 40); round++ {
+	for round := 0; round < ctx.Scale(4, 120); round++ {
 		n := 3 + r.Intn(2)
 		var all []int
 		for h := 1; h <= n; h++ {
